@@ -9,11 +9,14 @@ import (
 	"bytes"
 	"crypto/sha256"
 	"encoding/json"
+	"errors"
 	"fmt"
 	"io"
 	"os"
 	"sort"
 	"strings"
+	"sync/atomic"
+	"syscall"
 	"time"
 
 	"honnef.co/go/tools/internal/verifharness/batch"
@@ -66,7 +69,7 @@ func (r *rng) next() uint64 {
 	z = (z ^ (z >> 27)) * 0x94D049BB133111EB
 	return z ^ (z >> 31)
 }
-func (r *rng) n(n int) int { return int(r.next() % uint64(n)) }
+func (r *rng) n(n int) int         { return int(r.next() % uint64(n)) }
 func (r *rng) p(permille int) bool { return r.n(1000) < permille }
 
 func content(i, size int) []byte {
@@ -169,6 +172,10 @@ func (st *runState) checkLookup(how string, proc, id int, data []byte, e cache.E
 func (st *runState) runProc(pi int, ops []Op) {
 	c, err := cache.Open(root)
 	if err != nil {
+		if errors.Is(err, syscall.EIO) {
+			st.cnt["open:eio"]++
+			return
+		}
 		st.fail("open-failed", "process %d: cache.Open: %v", pi, err)
 		return
 	}
@@ -222,14 +229,21 @@ func (st *runState) runProc(pi int, ops []Op) {
 			}
 			var data []byte
 			buf := make([]byte, 32*1024)
+			var rerr error
 			for {
 				n, err := f.Read(buf)
 				data = append(data, buf[:n]...)
 				if err != nil {
+					rerr = err
 					break
 				}
 			}
 			f.Close()
+			if rerr != io.EOF {
+				// an injected read error: the reader knows it has not got the content
+				st.cnt["readerror:getfile"]++
+				continue
+			}
 			st.checkLookup("getfile", pi, op.ID, data, e)
 		case "getbytes":
 			data, e, err := cache.GetBytes(c, actionID(op.ID))
@@ -246,6 +260,10 @@ func (st *runState) runProc(pi int, ops []Op) {
 		case "reopen":
 			c, err = cache.Open(root)
 			if err != nil {
+				if errors.Is(err, syscall.EIO) {
+					st.cnt["open:eio"]++
+					return
+				}
 				st.fail("open-failed", "process %d: cache.Open: %v", pi, err)
 				return
 			}
@@ -387,12 +405,22 @@ func firstLines(s string, n int) string {
 var sizes = []int{0, 1, 2, 31, 4096, 32768, 32769, 70000}
 var clockJumps = []int64{1, 59 * 60, 61 * 60, 23 * 3600, 25 * 3600, 5 * 86400, 5*86400 + 61*60, 30 * 86400, -2 * 3600}
 
-type randomEngine struct{}
+// randomEngine with ioerr set is the exploratory, never gating family of
+// DESIGN.md 6.4: it also injects failing system calls (EIO) and a full disk
+// (short write + ENOSPC), which the property's quantifier does not contain;
+// what it finds is counted as an observation in the evidence, never reported
+// as a violation.
+type randomEngine struct{ ioerr bool }
 
-func (randomEngine) Name() string     { return "cachesim-random" }
+func (e randomEngine) Name() string {
+	if e.ioerr {
+		return "cachesim-ioerr"
+	}
+	return "cachesim-random"
+}
 func (randomEngine) Property() string { return "C05" }
 
-func (randomEngine) Generate(seed uint64, index int, tier string) json.RawMessage {
+func (e randomEngine) Generate(seed uint64, index int, tier string) json.RawMessage {
 	r := rng(seed)
 	c := Case{Seed: seed}
 	c.Strategy = 1 + r.n(4)
@@ -459,7 +487,11 @@ func (randomEngine) Generate(seed uint64, index int, tier string) json.RawMessag
 			// faults inside this process
 			if r.p(350) {
 				f := verifsim.Fault{Proc: procIndex, Op: r.n(6 * nops)}
-				switch r.n(4) {
+				nk := 4
+				if e.ioerr {
+					nk = 8
+				}
+				switch r.n(nk) {
 				case 0:
 					f.Kind = "crash"
 				case 1, 2:
@@ -468,6 +500,13 @@ func (randomEngine) Generate(seed uint64, index int, tier string) json.RawMessag
 				case 3:
 					f.Kind = "torn"
 					f.Arg = int64([]int{1, 2, 30, 100, 174, 4095, 20000, 32767}[r.n(8)])
+				case 4, 5:
+					// the process survives a failed system call
+					f.Kind = "eio"
+				case 6, 7:
+					// disk full: a short write, then an error
+					f.Kind = "enospc"
+					f.Arg = int64([]int{0, 1, 2, 30, 100, 174, 4095, 20000, 32767}[r.n(9)])
 				}
 				c.Faults = append(c.Faults, f)
 			}
@@ -490,14 +529,26 @@ func (randomEngine) Generate(seed uint64, index int, tier string) json.RawMessag
 	return b
 }
 
-func (randomEngine) Execute(raw json.RawMessage) batch.Result {
+func (e randomEngine) Execute(raw json.RawMessage) batch.Result {
 	var c Case
 	if err := json.Unmarshal(raw, &c); err != nil {
 		return batch.Result{Infra: err.Error()}
 	}
 	r, _, _ := execute(c, false)
+	if e.ioerr && r.Violation != nil {
+		if r.Counters == nil {
+			r.Counters = map[string]int{}
+		}
+		r.Counters["observation(not gating):"+r.Violation.Class]++
+		if ioerrShown.CompareAndSwap(false, true) {
+			fmt.Fprintf(os.Stderr, "OBSERVATION (exploratory I/O-error family, outside the property's fault model, not gating): %s: %s\n  case: %s\n", r.Violation.Class, r.Violation.Detail, raw)
+		}
+		r.Violation = nil
+	}
 	return r
 }
+
+var ioerrShown atomic.Bool
 
 func (randomEngine) Minimize(raw json.RawMessage, still func(json.RawMessage) bool) json.RawMessage {
 	return minimize(raw, still)
@@ -589,7 +640,17 @@ func minimize(raw json.RawMessage, still func(json.RawMessage) bool) json.RawMes
 	return enc(c)
 }
 
-func (randomEngine) Describe() batch.Description {
+func (e randomEngine) Describe() batch.Description {
+	d := e.describe()
+	if e.ioerr {
+		d.Rule = "EXPLORATORY, NEVER GATING (DESIGN.md 6.4): the random family plus failing system calls (EIO at a seeded fs call; the process survives) and a full disk (short write of k bytes, then ENOSPC). These faults are outside the property's quantifier; anomalies are counted under counters[\"observation(not gating):<class>\"]. Known observation: copyFile's error path truncates the data file to 0; when another process is storing the same content at that moment and then writes its last byte, the file has the right size and wrong (zero) bytes, and GetFile serves it. " + d.Rule
+		d.Assumptions = append(d.Assumptions[:2:2], "I/O errors are injected here although the property does not quantify over them; nothing this family sees changes the verdict")
+		d.FaultKinds = append([]string{"eio", "enospc(short write)"}, d.FaultKinds...)
+	}
+	return d
+}
+
+func (randomEngine) describe() batch.Description {
 	return batch.Description{
 		Rule: "each case: 1-3 phases of 1-4 simulated processes, each with its own DiskCache on one simulated directory, running seeded op lists (Put, PutBytes, Get, GetFile+open+read, GetBytes, Trim, Close, reopen, clock jump) over 1-4 action ids and 2-5 contents of sizes {0,1,2,31,4096,32768,32769,70000}; seeded crash/crash-inside-write/torn-write faults inside processes; between phases seeded truncation/removal of cache files and clock jumps; schedule chosen by a seeded strategy at every fs call. Non-trivial: at least one successful Put or lookup hit. Distinct: digest over the kernel event log and all lookup results.",
 		Assumptions: []string{
@@ -827,6 +888,8 @@ func main() {
 	switch fam {
 	case "enum":
 		batch.Main(&enumEngine{})
+	case "ioerr":
+		batch.Main(randomEngine{ioerr: true})
 	default:
 		batch.Main(randomEngine{})
 	}
